@@ -105,6 +105,13 @@ def finalize(plan):
                 good = True
             elif (not s['damaged']) and s['start'] < i <= s['end'] - 4:
                 good = True
+            elif s['damaged'] and s['start'] < i <= s['end'] - 4 and plan.get('family') == 'c12' and \
+                    s['fault']['kind'] in ('len', 'undef', 'stopsig') and \
+                    s['orig'][i - s['start']:i - s['start'] + 4] == b'BUFR':
+                # a start signature the message held before it was damaged (section 2 octets, character data, a
+                # whole message carried inside): the damaged message is skipped by its declared total length,
+                # whatever it holds is not looked at
+                good = True
         if not good:
             lay['ok'], lay['why'] = False, 'stray start signature at %d' % i
             return lay
@@ -328,6 +335,14 @@ def no_defs(e):
     return 'D' not in e['cls']
 
 
+def _sig_positions(raw):
+    out, i = [], raw.find(b'BUFR', 1)
+    while i >= 0:
+        out.append(i)
+        i = raw.find(b'BUFR', i + 1)
+    return out
+
+
 _KIN = {}
 
 
@@ -497,11 +512,11 @@ def _gen_plan(family, rng, pool, tier):
                 continue
             fault = None
             raw = bytes.fromhex(e['hex'])
-            if rng.random() < p_dmg and raw.find(b'BUFR', 1) < 0:
+            if rng.random() < p_dmg and (raw.find(b'BUFR', 1) < 0 or (not eof and rng.random() < 0.6)):
                 fault = gen_stream_fault(rng, raw, kinds_on)
                 if fault is not None:
                     d = bufrgen.apply_fault(raw, fault)
-                    if d.find(b'BUFR', 1) >= 0 or d == raw:
+                    if d == raw or _sig_positions(d) != _sig_positions(raw):
                         fault = None
             items.append(_item(e, fault))
         if eof:
@@ -562,6 +577,9 @@ def _gen_plan(family, rng, pool, tier):
         # sequence}; each section x each length delta; stop-signature variants), one scan per fault
         tiny = lambda e: small(e) and e['adm']['full']['n'] <= 1500 and 'B' not in e['cls']
         a, b = _pick(rng, pool, 2, tiny)
+        carriers = [e for e in pool if small(e) and e['adm']['full']['n'] <= 1500 and 'B' in e['cls']]
+        if carriers and rng.random() < 0.15:
+            a = rng.choice(carriers)        # the damaged message holds a start signature (perhaps a whole message)
         dnp = [e for e in pool if tiny(e) and (e.get('opkind') or '').startswith('plain-ops') and _has_221(e)]
         if dnp and rng.random() < 0.15:
             a = rng.choice(dnp)
@@ -591,7 +609,7 @@ def _gen_plan(family, rng, pool, tier):
             for sec in sorted(w['sections']):
                 faults.append({'kind': 'len', 'section': sec, 'delta': len(seps[ia + 1]) // 2 + len(b['hex']) // 2})
         faults = [f for f in faults if bufrgen.apply_fault(raw, f) != raw and
-                  bufrgen.apply_fault(raw, f).find(b'BUFR', 1) < 0]
+                  _sig_positions(bufrgen.apply_fault(raw, f)) == _sig_positions(raw)]
         kn = {'mode': mode, 'coe': rng.random() < 0.85, 'front': front, 'compiled': None, 'filter': None, 'order': order}
         if front == 'api' and rng.random() < 0.4:
             kn['wire'] = False
